@@ -250,6 +250,7 @@ impl Lut {
 
     /// Obtain the two cofactors with respect to a variable
     pub fn cofactors(&self, ind: usize) -> (Self, Self) {
+        self.check_var(ind);
         let mut c = (self.clone(), self.clone());
         cofactor0_inplace(self.num_vars(), c.0.table.as_mut(), ind);
         cofactor1_inplace(self.num_vars(), c.1.table.as_mut(), ind);
@@ -259,6 +260,7 @@ impl Lut {
     /// Create a Lut from its two cofactors
     pub fn from_cofactors(c0: &Self, c1: &Self, ind: usize) -> Self {
         assert_eq!(c0.num_vars, c1.num_vars);
+        c0.check_var(ind);
         let mut ret = Lut::new(c0.num_vars);
         from_cofactors_inplace(
             c0.num_vars,
